@@ -2,7 +2,7 @@
 import json, subprocess
 import vlib, reallib
 
-CONTEXTS = ("", "@unwinding")      # on an ordinary thread / from a destructor running while the thread unwinds from an earlier panic
+CONTEXTS = ("", "@unwinding", "@prefaked")      # on an ordinary thread / from a destructor running while the thread unwinds from an earlier panic / on a target that the same injector has ALREADY faked (a refusal leaves that fake in force)
 
 def observe(res):
     exe = reallib.build(res)
@@ -16,6 +16,7 @@ def observe(res):
         if t[0] == "NAME": O["names"][t[1]] = t[2]
         elif t[0] == "ROW": form, name, row = l.split(" ")[1:4]; O["rows"].setdefault(form, {})[name] = row
         elif t[0].startswith("ASYNC") and not t[0].startswith("ASYNC_"): O["asyncs"][t[1] + t[0][5:]] = t[2]
+        elif t[0] in ("BOOLGATE_GENERIC", "SIG_GENERIC"): O["misc"][t[0]] = " ".join(t[1:])
         elif len(t) >= 2: O["misc"][t[0]] = t[1]
     return O
 
@@ -80,6 +81,17 @@ def run(res, tier, seed, replay):
                 if b < len(row) and row[b] != want:
                     res.violation(f"async gate: faking an async fn of output {t} with a value of type {u} gave {row[b]}, expected {want}", dict(target=t, value=u, context=ctx or "ordinary"), row)
         if O["misc"].get("ASYNC_UNCHECKED_FAKE" + ctx) != "sig": res.violation("async: a checked target paired with an unchecked value was not refused", {}, O["misc"].get("ASYNC_UNCHECKED_FAKE" + ctx))
+    # func! call sites inside GENERIC functions (one source line, several instantiations in one process, in two different orders): the gate judges the
+    # instantiation that is executing.  Target types per site: u64, bool, u32, u64 / bool, u64, String, u64; the replacement is fn() -> u64
+    gs = O["misc"].get("SIG_GENERIC", "")
+    for site, (row, tys) in enumerate(zip(gs.split(), (["u64", "bool", "u32", "u64"], ["bool", "u64", "String", "u64"]))):
+        for k, (c, ty) in enumerate(zip(row, tys)):
+            cells += 1
+            want = "A" if ty == "u64" else "S"
+            if c != want:
+                res.violation(f"func! inside a generic function, instantiation #{k + 1} of the call site (T = {ty}, after {tys[:k]}): target fn() -> {ty} with replacement fn() -> u64 gave {c}, expected {want}",
+                              dict(form="func! in a generic fn", target=f"fn() -> {ty}", fake="fn() -> u64", earlier_instantiations=tys[:k]), gs)
+    if len(gs.split()) != 2: res.broke("generic call-site rows missing", gs)
     # the same gate for the pointers fake! produces, ARM BY ARM (every option combination found in the source): a target identical to what the user
     # wrote is accepted, one that differs only in `unsafe` is refused with a signature mismatch
     import os, shutil, armlib, fake_translate
